@@ -24,7 +24,7 @@ PRUNE = [
     H("H_C04_prune_map", "MapOf(Bool(),Bool()) on 13/16 symbolic words -> prune -> replay", reach=["valid", "invalid", "pruned-something"], quick=Q, thorough=T),
     H("H_C04_prune_filter", "two draws of Bool().Filter(id) on 6/7 symbolic words -> prune -> replay", reach=["valid", "invalid", "pruned-something"], quick=Q, thorough=T),
     H("H_C04_prune_perm", "Permutation of 3 elements (unbiased rejection loop) on 8/10 symbolic words -> prune -> replay", reach=["valid", "invalid", "pruned-something"], quick=Q, thorough=T),
-    H("H_C04_prune_repeat", "T.Repeat with 1..2 actions, each a symbolic 3-opcode program over {return, draw bool, Errorf, Skip}, -rapid.steps=2, whole test case through checkOnce on 9/11 symbolic words (thorough: actions may also use a Filter draw) -> prune -> replay: same verdict, same failure message, same re-recording", reach=["valid", "invalid", "failed", "pruned-something"], quick=Q, thorough=T),
+    H("H_C04_prune_repeat", "T.Repeat with 1..2 actions, each a symbolic 3-opcode program over {return, draw bool, Errorf, Skip}, -rapid.steps=2, whole test case through checkOnce on 9/10 symbolic words (thorough: actions may also use a Filter draw) -> prune -> replay: same verdict, same failure message, same re-recording", reach=["valid", "invalid", "failed", "pruned-something"], quick=Q, thorough=T),
     H("H_C04_prune_program", "a whole test case given by a symbolic program of 2 (quick) / 3 (thorough) opcodes over {return, draw, Filter-draw, Errorf, Fatalf, panic, Skip, Custom(sub-program of 2 opcodes)} through checkOnce on 8/10 symbolic words -> prune -> replay: same verdict, same failure message, same top-level draws, same re-recording", reach=["valid", "invalid", "failed", "pruned-something"], quick=Q, thorough=T),
     H("H_C04_prune_nested", "IntRange(0,4).Filter(x != 2) (rejected integer samples nested inside rejected Filter tries) followed by a raw word, on 10/13 symbolic words -> prune -> replay", reach=["valid", "invalid", "pruned-something"], quick=Q, thorough=T),
     H("H_C04_prune_repeatFilter", "T.Repeat with one action that starts with Bool().Filter(id).Draw (may exhaust its 5 tries) followed by 2 symbolic opcodes, on 14/18 symbolic words -> prune -> replay", reach=["valid", "invalid", "failed", "pruned-something"], quick=Q, thorough=T),
